@@ -214,12 +214,28 @@ def gen_comm_case(rng):
 EC_ST = {"rt": 2, "soo": 3}
 
 
+def gen_promoted_pattern(rng, vals):
+    """Patterns the compiler promotes to index-backed matchers only (no regexp fallback in the set), so that the
+    ANY/INVERT fast path is what answers."""
+    A = rng.choice(vals["as"])
+    L = rng.choice(vals["la"])
+    k = rng.choice(["exact", "wild", "wildas", "wildas", "set"])
+    if k == "exact":
+        return ("p", True, True, lit("%d:%d" % (A, L)))
+    if k == "wild":
+        return ("p", True, True, cat(lit("%d:" % A), rng.choice(WILD)))
+    if k == "wildas":
+        return ("p", True, True, cat(rng.choice(WILD_AS), lit(":"), lit(str(L))))
+    return ("p", True, True, cat(rng.choice(WILD_AS + [lit(str(A))]), lit(":"), ("grp", ("alt", [lit(str(L)), lit(str(rng.choice(vals["la"])) + "1")]))))
+
+
 def gen_ext_case(rng):
     vals = gen_vals(rng)
     npat = rng.choice([1, 1, 2, 3])
     pats = []
+    promoted_only = rng.random() < 0.4
     for _ in range(npat):
-        p = normalize(gen_pattern(rng, vals))
+        p = normalize(gen_promoted_pattern(rng, vals) if promoted_only else gen_pattern(rng, vals))
         if rng.random() < 0.2:
             la = rng.choice([65536, 70000, 4294967295])
             p = ("p", True, True, lit("%d:%d" % (rng.choice(vals["as"]), la)))
@@ -229,7 +245,10 @@ def gen_ext_case(rng):
         kind = rng.choice([0, 0, 0, 1, 2])
         st = rng.choice([2, 2, 3])
         a = rng.choice(vals["as"]) & 0xffff
-        la = rng.choice(vals["la"] + [65536, 70000])
+        # local-admin values: the patterns' numbers, and the same numbers plus k*65536 (a 32-bit local-admin whose
+        # low 16 bits coincide with a listed value) -- strengthened after seeded change C13
+        base = rng.choice(vals["la"])
+        la = rng.choice([base, base, base + 65536, base + 3 * 65536, 65536, 70000, 4294967295])
         if kind == 1:
             a = rng.choice([a, 65536 + a, 100])
             la &= 0xffff
